@@ -343,6 +343,11 @@ func cmdCheck(repo, root string, args []string) int {
 			}
 		}
 	}
+	// aspects of a property that no contract in reach expresses, covered by a bounded check of the real functions
+	for _, ps := range standInOfProperty[prop] {
+		standNames[ps.Validator] = true
+		standFor = append(standFor, ps.What)
+	}
 	sort.Strings(standFor)
 	var standRows []map[string]interface{}
 	var standFails []string
